@@ -10,6 +10,8 @@ small = st.integers(0, 7)
 excs = st.tuples(st.sampled_from(["ValueError", "KeyError", "RuntimeError", "HErr", "HErr2", "HBase", "IndexError", "AttributeError",
                                   "TypeError", "LookupError", "ValueError", "HErr"]),
                  st.lists(st.one_of(st.integers(0, 3), st.sampled_from(["x", "y"])), max_size=2)).map(list)
+_stopproc = st.tuples(st.just("StopProcess"), st.lists(st.sampled_from([0, 1, "x"]), min_size=1, max_size=1)).map(list)
+excs = st.integers(0, 15).flatmap(lambda k, _b=excs: _stopproc if k == 0 else _b)
 
 POLS = ["continue", "rewait", "propagate", "terminate", "raise"]
 
